@@ -1133,3 +1133,106 @@ def fam_vtj(rng):
 
 FAMILIES['vtj'] = fam_vtj
 EXACT_FAMILIES = EXACT_FAMILIES + ('vtj',)
+
+
+def fam_wedge(rng):
+    """nested wedges with a common apex: a wedge (or a wedge-shaped hole of a box) and a thinner wedge with the SAME apex
+    that is otherwise strictly inside it.  Differences and unions have a hole that touches its exterior ring — or an island
+    that touches its hole — in one vertex, which (after a symmetry: in one pose out of four) is the lowest-leftmost vertex
+    of both rings, with four result edges leaving it.  Edges meet in the shared apex only: no intersection point is computed."""
+    for _ in range(50):
+        L = rng.randrange(6, 11)
+        a, b = rng.randrange(2, 7), rng.randrange(2, 7)
+        l = rng.randrange(2, L)
+        ys = [y for y in range(-a * l // L - 1, b * l // L + 2) if -a * l < y * L < b * l]
+        if len(ys) >= 2:
+            break
+    else:
+        L, a, b, l, ys = 8, 4, 4, 6, [-1, 1]
+    y0, y1 = sorted(rng.sample(ys, 2))
+    V = (0.0, 0.0)
+    outer = [V, (float(L), float(-a)), (float(L), float(b))]
+    inner = [V, (float(l), float(y0)), (float(l), float(y1))]
+    kind = rng.choice(['wedge', 'wedge', 'holed', 'double'])
+    if kind == 'wedge':
+        pa, pb = [[outer]], [[inner]]
+    elif kind == 'holed':
+        big = [(-2.0, -a - 2.0), (L + 2.0, -a - 2.0), (L + 2.0, b + 2.0), (-2.0, b + 2.0)]
+        pa, pb = [[big, outer]], [[inner]]
+    else:
+        # two thin wedges inside the outer one, all three with the same apex
+        if len(ys) >= 4:
+            q = sorted(rng.sample(ys, 4))
+            pb = [[[V, (float(l), float(q[0])), (float(l), float(q[1]))]], [[V, (float(l), float(q[2])), (float(l), float(q[3]))]]]
+        else:
+            pb = [[inner]]
+        pa = [[outer]]
+    f = rng.choice(_SYM8)
+    nz = lambda q: (q[0] + 0.0, q[1] + 0.0)  # noqa: E731  (no negative zeros)
+    tr = lambda polys: [[[nz(f(x, y)) for (x, y) in r] for r in p] for p in polys]  # noqa: E731
+    A, B = ('M', tr(pa)), ('M', tr(pb))
+    if rng.random() < 0.25:
+        A, B = B, A
+    return A, B, {'family': 'wedge', 'kind': kind}
+
+
+FAMILIES['wedge'] = fam_wedge
+EXACT_FAMILIES = EXACT_FAMILIES + ('wedge',)
+
+
+def fam_fanout(rng):
+    """three or four lattice triangles that share one vertex V — after a symmetry the LEFT-MOST vertex of each — and fan out
+    from it, against a box cutting across all of them (or covering their tips / their common vertex): the result has three
+    or more rings that start in one vertex.  Far points on x = V.x + L with L a power of two and box edges at integer
+    abscissae: every crossing is dyadic (exact in binary64 and binary32)."""
+    L = rng.choice([4, 8])
+    ntri = rng.choice([3, 3, 4])
+    ys = sorted(rng.sample(range(-L, L + 1), 2 * ntri))
+    tris = [[(0.0, 0.0), (float(L), float(ys[2 * t])), (float(L), float(ys[2 * t + 1]))] for t in range(ntri)]
+    kind = rng.choice(['bar', 'bar', 'left', 'right'])
+    c = rng.randrange(1, L - 1)
+    if kind == 'bar':
+        box = [(float(c), -L - 1.0), (c + 1.0, -L - 1.0), (c + 1.0, L + 1.0), (float(c), L + 1.0)]
+    elif kind == 'left':
+        box = [(-1.0, -L - 1.0), (float(c), -L - 1.0), (float(c), L + 1.0), (-1.0, L + 1.0)]
+    else:
+        box = [(float(c), -L - 1.0), (L + 1.0, -L - 1.0), (L + 1.0, L + 1.0), (float(c), L + 1.0)]
+    f = rng.choice(_SYM8)
+    nz = lambda q: (q[0] + 0.0, q[1] + 0.0)  # noqa: E731
+    g_ = lambda r: [nz(f(x, y)) for (x, y) in r]  # noqa: E731
+    A, B = ('M', [[g_(t)] for t in tris]), ('M', [[g_(box)]])
+    if rng.random() < 0.3:
+        A, B = B, A
+    return A, B, {'family': 'fanout', 'kind': kind, 'ntri': ntri}
+
+
+FAMILIES['fanout'] = fam_fanout
+EXACT_FAMILIES = EXACT_FAMILIES + ('fanout',)
+
+
+def fam_toptip(rng):
+    """an operand whose LEFT-MOST vertex is also its unique TOP vertex (a triangle with a tip pointing up-left), a box B
+    across its lower right part and a third operand C that reaches only into the tip: rings returned by the library start
+    at their left-most vertex, so (A op B) enters the second operation starting at its top vertex.  Widths and the height
+    differences are powers of two, box edges at half-integers: every crossing is dyadic.  meta['third'] = C."""
+    w = float(rng.choice([4, 8]))
+    h = float(rng.choice([4, 8]))
+    h2 = h - float(rng.choice([1, 2, 4]))
+    if h2 < 0.5:
+        h2 = h - 2.0
+    tri = [(w, 0.0), (w, h2), (0.0, h)]
+    k = rng.randrange(3)
+    tri = tri[k:] + tri[:k]
+    bx0 = float(rng.randrange(int(w) // 2, int(w)))
+    box = [(bx0, -1.0), (w + 1.0, -1.0), (w + 1.0, 0.5), (bx0, 0.5)]
+    cy0 = h2 + 0.5 if h2 + 0.5 < h else h - 0.5
+    cbox = [(-1.0, cy0), (float(rng.choice([1, 2])), cy0), (float(rng.choice([1, 2])), h + 1.0), (-1.0, h + 1.0)]
+    cbox[2] = (cbox[1][0], h + 1.0)
+    f = rng.choice([_SYM8[0]] * 4 + list(_SYM8))
+    nz = lambda q: (q[0] + 0.0, q[1] + 0.0)  # noqa: E731
+    g_ = lambda r: [nz(f(x, y)) for (x, y) in r]  # noqa: E731
+    return ('M', [[g_(tri)]]), ('M', [[g_(box)]]), {'family': 'toptip', 'third': ('M', [[g_(cbox)]])}
+
+
+FAMILIES['toptip'] = fam_toptip
+EXACT_FAMILIES = EXACT_FAMILIES + ('toptip',)
